@@ -5,6 +5,9 @@ Require Import SP.Params SP.Lib.Comm.
 Import ListNotations.
 Open Scope N_scope.
 
+(* keep the numeric constants folded: a large WRITE_SIZE must break the side-condition lemma, not hang a tactic *)
+Global Opaque WRITE_SIZE READ_CHUNK POLL_CLAMP_MS.
+
 Arguments N.add : simpl never.
 Arguments N.sub : simpl never.
 Arguments N.mul : simpl never.
